@@ -49,6 +49,17 @@ type World struct {
 	// of that kind (two for data), which re-submits them.
 	lostAckH, lostAckD bool
 	incAt              map[int]uint64 // DA-included height the node reported right before its n-th durable write
+	// injected write faults (`fail=n` on a submission op: the next n single Puts of the datastore - the writes that
+	// persist the watermark - fail): how many the current tick consumed; whether the durable copy of the header / data
+	// watermark lags behind memory because of one (justified until the next successful write or a restart); the
+	// durable copies after the previous op; whether a persist failed since the last (re)start
+	failUsed           int
+	lagH, lagD         bool
+	diskHwm, diskDwm   uint64
+	failedSinceStart   bool
+	// highest header / data height the DA layer accepted AND acknowledged to the running process (after a restart: the
+	// reloaded watermark - what lies above it may be submitted again)
+	ackH, ackD uint64
 }
 
 func be(b []byte) uint64 {
@@ -161,7 +172,13 @@ func Run(c *hx.Ctx) {
 			w.realQuietH, w.realQuietD = false, false
 			w.lostAckH, w.lostAckD = false, false
 			w.lostH, w.lostD = map[string]bool{}, map[string]bool{}
+			w.lagH, w.lagD, w.failUsed, w.failedSinceStart = false, false, 0, false
 			c.Emit("%s", w.start(nil, ""))
+			if !w.dead {
+				w.lastHwm, w.lastDwm = w.env.M.VerifLastSubmitted()
+				w.ackH, w.ackD = w.lastHwm, w.lastDwm
+				w.diskHwm, w.diskDwm = w.meta("last-submitted-header-height"), w.meta("last-submitted-data-height")
+			}
 			if !w.dead {
 				// heights below the initial height need no inclusion: the reported height starts at initialHeight-1,
 				// which is the chain height of a node that has not committed yet
@@ -196,6 +213,15 @@ func Run(c *hx.Ctx) {
 					w.sigHook = func() { dat = "sign"; fire() }
 				}
 			}
+			// `fail=n`: the next n single Puts of the datastore fail - the writes that persist the watermark
+			// (store.SetMetadata) are the only single Puts of a submission body (not combined with `during=`)
+			nf := 0
+			if !during && o.Has("fail") {
+				if nf = o.Int("fail"); nf < 0 {
+					nf = 0
+				}
+			}
+			e.DS.FailPut = nf
 			var ran bool
 			var err error
 			if o.Verb == "subh" {
@@ -203,6 +229,8 @@ func Run(c *hx.Ctx) {
 			} else {
 				ran, err = e.M.VerifSubmitDataOnce(context.Background())
 			}
+			w.failUsed = nf - e.DS.FailPut
+			e.DS.FailPut = 0
 			if during {
 				w.da.OnSubmit, w.sigHook = nil, nil
 				if dat == "after" {
@@ -280,7 +308,16 @@ func Run(c *hx.Ctx) {
 			}
 			n0 := len(w.da.Submits)
 			w.from = e.DS.NumWrites()
+			nf := 0
+			if o.Has("fail") {
+				if nf = o.Int("fail"); nf < 0 {
+					nf = 0
+				}
+			}
+			e.DS.FailPut = nf
 			quiet := w.runRealSubmitter(isData)
+			w.failUsed = nf - e.DS.FailPut
+			e.DS.FailPut = 0
 			var calls []string
 			for _, s := range w.da.Submits[n0:] {
 				var hs []string
@@ -365,6 +402,13 @@ func Run(c *hx.Ctx) {
 			}
 			img := e.DS.ImageAt(keep)
 			reported := w.incAt
+			lagH, lagD := w.lagH, w.lagD
+			if lagH {
+				w.lostAckH = true // the restarted node cannot know what the lost write recorded
+			}
+			if lagD {
+				w.lostAckD, w.okData = true, 0
+			}
 			hmBefore, dmBefore := e.M.HeaderCache().VerifDAIncluded(), e.M.DataCache().VerifDAIncluded()
 			c.Emit("%s", w.start(img, root))
 			if o.Verb == "crash" && !w.dead {
@@ -389,9 +433,23 @@ func Run(c *hx.Ctx) {
 				hm, dm := w.env.M.VerifLastSubmitted()
 				inc := w.env.M.GetDAIncludedHeight()
 				if o.Verb == "restart" || keep == n {
-					// nothing was lost: what was recorded before the restart must still be there
-					if hm < w.lastHwm || dm < w.lastDwm {
-						c.Report("C06/watermark/decreased-across-restart", fmt.Sprintf("%d/%d -> %d/%d", w.lastHwm, w.lastDwm, hm, dm))
+					// nothing was lost: what was recorded before the restart must still be there - where a write of the
+					// watermark failed (injected fault), what was recorded durably is the lagging disk copy: submission
+					// resumes from it
+					floorH, floorD := w.lastHwm, w.lastDwm
+					if lagH {
+						floorH = w.diskHwm
+					}
+					if lagD {
+						floorD = w.diskDwm
+					}
+					if hm < floorH || dm < floorD {
+						c.Report("C06/watermark/decreased-across-restart", fmt.Sprintf("%d/%d (durable %d/%d) -> %d/%d", w.lastHwm, w.lastDwm, w.diskHwm, w.diskDwm, hm, dm))
+					}
+					if hm > w.lastHwm || dm > w.lastDwm {
+						if ih := w.env.Options.InitialHeight; hm > max(w.lastHwm, ih-1) || dm > max(w.lastDwm, ih-1) {
+							c.Report("C06/watermark/raised-by-restart", fmt.Sprintf("%d/%d -> %d/%d", w.lastHwm, w.lastDwm, hm, dm))
+						}
 					}
 					if inc < w.lastInc {
 						c.Report("C07/da-included/decreased-across-restart", fmt.Sprintf("%d -> %d", w.lastInc, inc))
@@ -415,6 +473,9 @@ func Run(c *hx.Ctx) {
 					}
 				}
 				w.lastHwm, w.lastDwm, w.lastInc = hm, dm, inc
+				w.ackH, w.ackD = hm, dm
+				w.lagH, w.lagD, w.failUsed, w.failedSinceStart = false, false, 0, false
+				w.diskHwm, w.diskDwm = w.meta("last-submitted-header-height"), w.meta("last-submitted-data-height")
 				w.checkIncBounds(o.Verb)
 			}
 		default:
@@ -585,15 +646,67 @@ func (w *World) monitorSubmit(verb string, n0, scriptLeft int) {
 	w.checkCounters(verb)
 	ctx := context.Background()
 	hm, dm := e.M.VerifLastSubmitted()
-	if hm < w.lastHwm || dm < w.lastDwm {
-		c.Report("C06/watermark/decreased", fmt.Sprintf("%d/%d -> %d/%d", w.lastHwm, w.lastDwm, hm, dm))
+	failed := w.failUsed > 0
+	w.failUsed = 0
+	if failed {
+		w.failedSinceStart = true
+		c.Hit("failed-persist")
 	}
+	sfx := ""
+	if w.failedSinceStart {
+		sfx = "/after-failed-persist"
+	}
+	if hm < w.lastHwm || dm < w.lastDwm {
+		c.Report("C06/watermark/decreased"+sfx, fmt.Sprintf("%d/%d -> %d/%d", w.lastHwm, w.lastDwm, hm, dm))
+	}
+	prevH, prevD := w.lastHwm, w.lastDwm
 	w.lastHwm, w.lastDwm = hm, dm
 	if hm > e.Height() || dm > e.Height() {
 		c.Report("C06/watermark/above-chain-height", fmt.Sprintf("%d/%d height %d", hm, dm, e.Height()))
 	}
-	if hm != w.meta("last-submitted-header-height") || dm != w.meta("last-submitted-data-height") {
-		c.Report("C06/watermark/not-persisted", fmt.Sprintf("mem %d/%d disk %d/%d", hm, dm, w.meta("last-submitted-header-height"), w.meta("last-submitted-data-height")))
+	// memory = durable copy - except where a write of the watermark failed (injected fault): then the durable copy is
+	// what it was (it lags), until the next write of that watermark succeeds; memory is raised all the same
+	diskH, diskD := w.meta("last-submitted-header-height"), w.meta("last-submitted-data-height")
+	if diskH < w.diskHwm || diskD < w.diskDwm {
+		c.Report("C06/watermark/durable-copy-decreased", fmt.Sprintf("%d/%d -> %d/%d", w.diskHwm, w.diskDwm, diskH, diskD))
+	}
+	lag := func(mem, prevMem, disk, prevDisk uint64, was, failedNow bool) (bool, bool) { // (lagging, justified)
+		if mem == disk {
+			return false, true
+		}
+		return true, disk < mem && ((failedNow && disk >= prevDisk) || (was && mem == prevMem && disk == prevDisk))
+	}
+	var okH, okD bool
+	w.lagH, okH = lag(hm, prevH, diskH, w.diskHwm, w.lagH, failed && verb == "subh")
+	w.lagD, okD = lag(dm, prevD, diskD, w.diskDwm, w.lagD, failed && verb == "subd")
+	if !okH || !okD {
+		c.Report("C06/watermark/not-persisted", fmt.Sprintf("mem %d/%d disk %d/%d", hm, dm, diskH, diskD))
+	}
+	w.diskHwm, w.diskDwm = diskH, diskD
+	// nothing the DA layer accepted and acknowledged to this process is submitted again while it keeps running
+	for _, sb := range w.da.Submits[n0:] {
+		for i, b := range sb.Blobs {
+			k, h, _, _ := decodeBlob(b)
+			if (k == "h" && h <= w.ackH) || (k == "d" && h <= w.ackD && h > 0) {
+				what := "acknowledged-items"
+				if w.failedSinceStart {
+					what = "acknowledged-items-after-failed-persist"
+				}
+				c.Report("C06/resubmitted/"+what, fmt.Sprintf("%s%d (blob %d of a %s submission) was accepted and acknowledged before (up to %d/%d), the node has not restarted since", k, h, i, verb, w.ackH, w.ackD))
+				break
+			}
+		}
+		if strings.HasPrefix(sb.Answer, "ok") {
+			for i := 0; i < sb.Accepted && i < len(sb.Blobs); i++ {
+				k, h, _, _ := decodeBlob(sb.Blobs[i])
+				if k == "h" && h > w.ackH {
+					w.ackH = h
+				}
+				if k == "d" && h > w.ackD {
+					w.ackD = h
+				}
+			}
+		}
 	}
 	ih := e.Options.InitialHeight
 	// soundness: everything at or below the watermark is on the DA layer
@@ -656,11 +769,17 @@ func (w *World) monitorSubmit(verb string, n0, scriptLeft int) {
 		}
 		for i := 0; i < sb.Accepted && i < len(sb.Blobs); i++ {
 			k, h, _, _ := decodeBlob(sb.Blobs[i])
+			// with a failed persist in this tick: the value was in memory when the acknowledgement was processed
+			// (setLastSubmittedHeight stores it before it writes) and is not any more - it went back
+			sig := "C06/watermark/behind-acknowledged-acceptance"
+			if failed {
+				sig = "C06/watermark/decreased/after-failed-persist"
+			}
 			if k == "h" && h > hm {
-				c.Report("C06/watermark/behind-acknowledged-acceptance", fmt.Sprintf("header %d was accepted and acknowledged, watermark %d", h, hm))
+				c.Report(sig, fmt.Sprintf("header %d was accepted and acknowledged, watermark %d", h, hm))
 			}
 			if k == "d" && h > dm {
-				c.Report("C06/watermark/behind-acknowledged-acceptance", fmt.Sprintf("data %d was accepted and acknowledged, watermark %d", h, dm))
+				c.Report(sig, fmt.Sprintf("data %d was accepted and acknowledged, watermark %d", h, dm))
 			}
 		}
 	}
